@@ -115,7 +115,28 @@ def validate(v):
     return history.Op("validate(%r)" % (v,), apply)
 
 
-VALIDATE_OPS = [validate(v) for v in ({"a": 1}, {"a": "s", "b": 2}, "ab", 0)]
+def observer(name, fn):
+    """Operations that only LOOK at the object (serializers, repr, ==): they must not change how it validates."""
+    def apply(live):
+        try:
+            fn(live)
+        except Exception:
+            pass
+
+    return history.Op(name, apply)
+
+
+def _observers():
+    from statham.serializers import serialize_json, serialize_python
+
+    return [
+        observer("serialize_json(obj)", lambda o: serialize_json(o)),
+        observer("serialize_python(obj)", lambda o: serialize_python(o)),
+        observer("repr(obj); obj == obj", lambda o: (repr(o), o == o)),
+    ]
+
+
+VALIDATE_OPS = [validate(v) for v in ({"a": 1}, {"a": "s", "b": 2}, "ab", 0)] + _observers()
 
 PROP_OPS = [
     prop_set("a", ("Integer()", False, None)),
